@@ -1,7 +1,7 @@
 """Translator for C19: cherab/core/atomic/elements.pyx -> the list of module-level definitions.
 
 elements.pyx is Cython, so it cannot be parsed as a whole with `ast`.  Its module level, however,
-is plain Python: imports, two `{}` assignments, the class / function blocks, ~370 assignments of
+is plain Python: imports, two `{}` assignments (and possibly other literal constants), the class / function blocks, ~370 assignments of
 the form  name = Element('..', '..', Z, w)  /  name = Isotope('..', '..', element, A, w)  and the
 two calls that build the indices.  The translator walks the column-0 logical lines, skips the
 indented class / def bodies, parses every other logical line with `ast` and accepts only the forms
@@ -103,6 +103,7 @@ def translate(path):
        info: {'index_calls': [...], 'ignored': [...]}"""
     text = open(path, encoding="utf8").read()
     stmts, index_calls, ignored = [], [], []
+    literal_names = set()
     for lineno, src in _logical_lines(text):
         try:
             tree = ast.parse(src)
@@ -126,6 +127,21 @@ def translate(path):
                 if isinstance(v, ast.Dict) and not v.keys and attr in ("_element_index", "_isotope_index"):
                     ignored.append((lineno, "index dict"))
                     continue
+                # a module constant that is a plain literal ([], {}, 3, 'text', None ...) cannot define a species; it is
+                # ignored unless it rebinds a name that holds one
+                try:
+                    ast.literal_eval(v)
+                    is_literal = True
+                except (ValueError, SyntaxError, TypeError):
+                    is_literal = False
+                if is_literal:
+                    if any(x["attr"] == attr for x in stmts):
+                        raise TranslateError("line %d: %s rebinds a species to a literal" % (lineno, attr))
+                    literal_names.add(attr)
+                    ignored.append((lineno, "literal constant " + attr))
+                    continue
+                if attr in literal_names:
+                    pass        # (a species assigned to a name that held a literal is an ordinary definition)
                 if isinstance(v, ast.Call) and isinstance(v.func, ast.Name) and not v.keywords:
                     if v.func.id == "Element" and len(v.args) == 4:
                         stmts.append({"kind": "element", "attr": attr, "name": _str(v.args[0]),
